@@ -51,13 +51,14 @@ def main():
         if e.get("mir"):
             served["mir-smt"].append(pid)
         tech = "bounded model checking (Kani/CBMC SAT) of the real Rust functions over a symbolic pre-state"
-        if e.get("mir") == "sorter":
+        mir0 = e.get("mir")[0] if isinstance(e.get("mir"), list) else e.get("mir")
+        if mir0 == "sorter":
             eng = "mir-smt"
             tech = "SMT (z3) decided path-forking symbolic interpretation of rustc's MIR for sort.rs with symbolic rule names, shapes enumerated"
-        elif e.get("mir") == "parser":
+        elif mir0 == "parser":
             eng = "mir-smt"
             tech = "SMT (z3) decided path-forking symbolic interpretation of rustc's MIR for rule.rs / bundle.rs on symbolic lines (leading tabs, rest), file and section lengths enumerated; classes re-run as concrete text on the real parser"
-        elif e.get("mir") == "proto":
+        elif mir0 == "proto":
             if not e["quick"]:
                 eng = "mir-smt"
                 tech = "SMT (z3) decided symbolic interpretation of rustc's MIR for build.rs / packet.rs (build(), clean(), worker closures, channel wiring) over a deterministic thread scheduler with Kahn-network monitors; plans enumerated, worker outcomes symbolic; counterexamples re-run on the real build() under a seeded native scheduler"
@@ -65,6 +66,8 @@ def main():
                 tech += "; plus SMT (z3) decided symbolic interpretation of rustc's MIR for build(), clean() and the worker closures over a deterministic thread scheduler with Kahn-network monitors (plans enumerated, worker outcomes symbolic)"
         elif e.get("mir"):
             tech = "SMT (z3) over a path-wise symbolic execution of rustc's MIR for the base-62 kernels, plus bounded model checking (Kani/CBMC) of from_file"
+        if isinstance(e.get("mir"), list) and "sorter" in e.get("mir")[1:]:
+            tech += "; plus the sorter executor's clauses this property rests on (goal scope for C09, producer-before-consumer and source binding for C03)"
         checks.append({
             "property_id": pid,
             "quick_cmd": "./check %s quick" % pid,
